@@ -185,6 +185,9 @@ class Effects:
                             continue          # result of a call: treated as fresh (constructors, copies, getters)
                         if isinstance(v, (ast.List, ast.Dict, ast.Set, ast.ListComp, ast.DictComp, ast.SetComp, ast.Constant, ast.Tuple)):
                             continue
+                        if isinstance(v, ast.Name) and v.id != root.id and v.id in f.module.assigns and v.id not in f.params and not self._is_local(f, v.id):
+                            # alias of a module-level object: `dummy = _DUMMY_ELEMENT`
+                            return ('module', f'{root.id} = {v.id}', chain[1].attr if len(chain) > 1 and isinstance(chain[1], ast.Attribute) else '')
                         if isinstance(v, (ast.Attribute, ast.Subscript)):
                             o = self.owner(f, v, cfg_cache, lambda g_, d=d: d)
                             if o is not None:
